@@ -22,7 +22,7 @@ Theorem C05_x86 : forall rw first rg m ora cfa fp',
   match ora with
   | None => fst (row_outcome_x86 rw first rg m) = Ok None
   | Some ra =>
-    ra <> 0 -> ~ (cfa = sp rg /\ ra = ip rg) -> sp rg <= cfa ->
+    ra <> 0 -> ~ (cfa = sp rg /\ ra = ip rg) -> sp rg <= cfa -> (first = false -> sp rg < cfa) ->
     (cfa_on_fp DW_RBP rw = true -> bp rg <> 0 /\ sp rg < cfa) ->
     fst (row_outcome_x86 rw first rg m) = Ok (Some ra) /\
     regs_after rg (snd (row_outcome_x86 rw first rg m)) ra cfa fp'
